@@ -821,7 +821,10 @@ func (cc *Conn) handleReq(w *responsewriter.ResponseWriter[*Conn], req *pool.Mes
 	// may coincide with the ID of a request of the peer that is still inside its handler - it must not
 	// wait for that handler (which may be waiting for this very acknowledgement).
 	if req.Type() == message.Confirmable || req.Type() == message.NonConfirmable {
-		l := cc.msgIDMutex.Lock(reqMid)
+		// A duplicate of a request that is still inside its handler waits here for that handler. The handler
+		// may itself wait for a message that is queued behind the duplicate (the answer to a request it issued):
+		// let another loop process incoming messages meanwhile.
+		l := cc.msgIDMutex.LockFunc(reqMid, cc.receivedMessageReader.TryToReplaceLoop)
 		defer l.Unlock()
 	}
 
